@@ -15,10 +15,10 @@ THEOREMS = ['C08_limit_best_is_fold', 'C08_limit_best_general', 'C08_limit_best_
             'C08_reflexive_enforce', 'C08_rt_enforce', 'C08_global_enforce', 'C08_global_not_universal',
             'C08_serial_enforce', 'C08_enforce_total',
             'C08_value_of_spec', 'C08_value_of_no_fuel_exhaustion', 'C08_value_of_rebind_refuted',
-            'C08_value_of_order_independent',
-            'C08_complete_frames_total', 'C08_classical_finish_refuted', 'C08_classical_finish_repaired',
-            'C08_finish_fixed_classical', 'C08_reachable_wf', 'C08_classical_finish_repaired_history']
-
+            'C08_value_of_order_independent', 'C08_complete_frames_total', 'C08_reachable_wf',
+            'C08_finish_frames', 'C08_finish_access_exact', 'C08_finish_serial_total',
+            'C08_classical_completion', 'C08_classical_finish', 'C08_classical_finish_history',
+            'C08_classical_finish_old_refuted']
 
 def chunks(l, n):
     for i in range(0, len(l), n):
@@ -33,9 +33,9 @@ def histories(rng, L, tier):
     if tier == 'thorough':
         out += [[]] + [[o] for o in pool]
         out += [[a, b] for a in pool for b in pool]          # every order of <= 2 calls: exhaustive
-        for n, k in ((3, 250), (4, 250)):
+        for n, k in ((3, 150), (4, 150)):
             out += [[rng.choice(pool) for _ in range(n)] for _ in range(k)]
-        out += [mlib.rand_history(rng, L) for _ in range(300)]
+        out += [mlib.rand_history(rng, L) for _ in range(200)]
     else:
         out += [[]]
         out += [[rng.choice(pool)] for _ in range(4)]
@@ -167,9 +167,8 @@ def static_obligations(chk, logics):
     for L in logics:
         if L['hooks']['finish'] == 'cpl':
             i = coqgen.ident(L['name'])
-            fn = 'run_fixed' if L.get('classical_fixed') else 'run'
-            exprs.append(f'match {fn} ML_{i} [0; 1; 2] all_pord wit_chain with Some st => classical_okb st | None => false end')
-            meta.append(('classical', L, fn))
+            exprs.append(f'match run ML_{i} [0; 1; 2] all_pord wit_chain with Some st => classical_okb st | None => false end')
+            meta.append(('classical', L, 'run'))
     hdr = mlib.HEADER + 'Require Import GC08.Logics.\n'
     answers = mlib.coq_eval(PID, hdr, exprs, name='Status', shard=120)
     lemmas = [hdr, 'From PTProps Require Import C08.\n']
@@ -195,8 +194,11 @@ def static_obligations(chk, logics):
                               dict(kind='obligation', logic=n, obligation='vals_closed'), found_input=False)
         elif what == 'classical':
             ok = ans.strip() == 'true'
-            chk.obligation(f'{n}:classical_finish on the witness history a=b, b=c, Fa ({kind})', ok)
+            chk.obligation(f'{n}:classical_finish on the witness history a=b, b=c, Fa', ok)
             lemmas.append(f'Lemma obl_classical_{i} : {e} = {"true" if ok else "false"}.\nProof. vm_compute. reflexivity. Qed.\n')
+            if not ok:
+                chk.violation(f'model:{n}:classical-witness', f'{n}: the model of finish() does not make the witness history classical',
+                              dict(kind='obligation', logic=n, obligation='classical_okb (run wit_chain)'), found_input=False)
         elif what == 'gen':
             ok = ans.strip() == 'None'
             chk.obligation(f'{n}:generaliser:{kind} reproduces value_of on every list of length <= 3', ok)
@@ -276,8 +278,9 @@ def check_case(chk, L, tables, case, res, coq, order):
     elif sorted(c_aw) != res['aw'] or sorted(map(tuple, c_ap)) != [tuple(p) for p in res['ap']]:
         chk.violation(f'model-tie:enforce:{L["access"]}', f'{n}: Coq model of enforce disagrees with the implementation',
                       dict(base, clause='access', impl=[res['aw'], res['ap']], model=[c_aw, c_ap]), found_input=False)
+    fk_exp = aw_exp      # finish(): every world of R (also those enforce() adds) has a frame
     if res['fkeys'] != fk_exp:
-        chk.violation('complete_frames:frames', f'{n}: frames after finish {res["fkeys"]}, expected {fk_exp}',
+        chk.violation('finish:frames', f'{n}: frames after finish {res["fkeys"]}, but the worlds of R are {fk_exp}',
                       dict(base, clause='frames', impl=res['fkeys'], expected=fk_exp))
     elif sorted(c_fk) != res['fkeys']:
         chk.violation('model-tie:frames', f'{n}: Coq model frames {c_fk} vs implementation {res["fkeys"]}',
@@ -357,6 +360,34 @@ def check_case(chk, L, tables, case, res, coq, order):
                           dict(base, clause=clause, world=w, witness=what))
 
 
+def serial_base_bad(ent):
+    if ent.get('err'):
+        return f'raised {ent["err"]}'
+    Rw = sorted(int(w) for w in ent['R'])
+    Rp = sorted([int(w), w2] for w, ws in ent['R'].items() for w2 in ws)
+    if ent['frames'] != Rw:
+        return f'frames {ent["frames"]} but the worlds of R are {Rw}'
+    if ent['worlds'] != Rw or sorted(ent['access']) != Rp:
+        return f'exported worlds {ent["worlds"]} / access {ent["access"]} but R = {Rp} on {Rw}'
+    if len({json.dumps(a) for a in ent['atoms'].values()}) != 1:
+        return f'frames do not know the same atoms: {ent["atoms"]}'
+    if any(not ent['R'][str(w)] for w in Rw):
+        return f'a world has no successor: {ent["R"]}'
+    return None
+
+
+def serial_base_clause(chk):
+    """BaseModel.finish under SerialAccess outside the classical family (no registered logic: synthetic subclass)."""
+    for ent in probe_json('probe_model.py', ['serial_base']):
+        chk.cases += 1
+        chk.count('source', 'synthetic-serial-base')
+        bad = serial_base_bad(ent)
+        if bad:
+            chk.violation('BaseModel.finish/frames-after-enforce',
+                          f'{ent["base"]}.Model with Access=SerialAccess, ops {ent["ops"]}: after finish() {bad}',
+                          dict(kind='serial_base', base=ent['base'], ops=ent['ops'], clause='serial_base'))
+
+
 def run(args) -> int:
     chk = Check(PID, args.tier, args.seed)
     chk.rule = ('one case = (logic, history of set/add calls, order seed); each case evaluates every sentence of the '
@@ -407,7 +438,7 @@ def run(args) -> int:
     from concurrent.futures import ThreadPoolExecutor
     results = {}
     for order in orders:
-        step = 3 if args.tier == 'quick' else 5
+        step = 3 if args.tier == 'quick' else 8
         idx = list(range(len(cases))) if order == 0 else [i for i, c in enumerate(cases)
                                                           if by_name[c['logic']]['hooks']['finish'] == 'cpl' or i % step == 0]
         sub = [cases[i] for i in idx]
@@ -429,8 +460,7 @@ def run(args) -> int:
         classical = L['hooks']['finish'] == 'cpl'
         if order != 0 and not classical:
             continue
-        fn = 'run_case_fixed' if (classical and L.get('classical_fixed')) else 'run_case'
-        exprs.append(f"{fn} ML_{coqgen.ident(c['logic'])} {mlib.clist(mlib.cop(o) for o in c['ops'])} "
+        exprs.append(f"run_case ML_{coqgen.ident(c['logic'])} {mlib.clist(mlib.cop(o) for o in c['ops'])} "
                      f"{mlib.cnats(r['cord'])} {mlib.cpord(r['pord'])} "
                      f"(sents_{c['shared']} ++ {mlib.clist(mlib.csent(s) for s in c['sents'][c['n_shared']:])}) "
                      f"{mlib.cnats(c['worlds'])}")
@@ -460,6 +490,7 @@ def run(args) -> int:
                 chk.violation(key, f'{c["logic"]}: results differ between iteration-order seeds 0 and {order} '
                               f'on ops {c["ops"]}', dict(kind='case', logic=c['logic'], ops=c['ops'], order=order,
                                                          clause='order', sents=c['sents'], worlds=c['worlds']))
+    serial_base_clause(chk)
     chk.checker_cmd = ('coqc gen/C08/{Logics,Obl,Status*,Cases*}.v against coq/theories/Sem/{LimitBest,Access,AccessProofs,'
                        'PyModel,PyModelProofs,Classical,ClassicalProofs}.v, Props/C08.v')
     chk.trusted += ['tools/mlib.py Reference: the independent evaluator used to classify disagreements',
@@ -474,6 +505,15 @@ def run(args) -> int:
 
 def replay(path: str) -> int:
     rep = json.load(open(path))
+    if rep.get('clause') == 'serial_base':
+        for ent in probe_json('probe_model.py', ['serial_base']):
+            if ent['base'] == rep['base'] and ent['ops'] == rep['ops']:
+                bad = serial_base_bad(ent)
+                print(f'replay: {bad}')
+                if bad:
+                    print(f'VIOLATION property={PID} replay={path}')
+                    return 1
+        return 0
     facts = {L['name']: L for L in probe_json('probe_model.py', ['facts'])}
     tf = {L['name']: L for L in probe_json('probe_facts.py')['logics']}
     L = facts[rep['logic']]
@@ -501,8 +541,10 @@ def replay(path: str) -> int:
         print(f'replay: R = {res["ap"]} on {res["aw"]}; closure = {ap_exp} on {aw_exp}')
         bad = res['aw'] != aw_exp or [tuple(p) for p in res['ap']] != ap_exp
     elif clause == 'frames':
-        fk_exp, _, _ = expected_frame_keys(L, rep['ops'])
-        bad = res['fkeys'] != fk_exp
+        fk_exp, aw0, ap0 = expected_frame_keys(L, rep['ops'])
+        aw_exp, _ = mlib.closure(L['access'], aw0, ap0)
+        print(f'replay: frames {res["fkeys"]}; worlds of R {aw_exp}')
+        bad = res['fkeys'] != aw_exp
     elif clause == 'order':
         r0 = probe_json('probe_model.py', ['run'], order=0, stdin=json.dumps([case]))[0]
         bad = any(res.get(k) != r0.get(k) for k in ('err', 'aw', 'ap', 'fkeys', 'vals'))
